@@ -181,23 +181,40 @@ fn run_tree<T: Scalar>(spec: &Spec, xs: &[f64], out: &mut TrialOut) {
     analyze(spec, &mut next, &cx, out);
 }
 
-/// documented first-output step for a single view fed directly
-fn warmup_check<T: Scalar>(k: Kind, xs: &[f64], out: &mut TrialOut) {
+/// documented first-output step, counted in *delivered* values: the view fed directly
+/// (`delay` = 0) or sitting over an inner view (a Script) that delivers nothing for its first
+/// `delay` updates and the values `xs` afterwards, while the raw inputs are unrelated
+fn warmup_check<T: Scalar>(k: Kind, xs: &[f64], delay: usize, out: &mut TrialOut) {
     let Some((lo, hi)) = catalogue::warmup(&k) else {
         return;
     };
-    let spec = Spec::leaf(k);
+    let spec = if delay == 0 { Spec::leaf(k) } else { Spec::un(k, Spec::Script(0)) };
     let mut env = Env::<T>::new();
+    if delay > 0 {
+        env.add_script((0..delay).map(|_| None).chain(xs.iter().map(|x| Some(T::of(*x)))).collect());
+        out.count("warm-up_checks_over_a_late_inner_view", 1);
+    }
     let Ok(mut v) = guarded(|| build(&spec, &mut env)) else {
         return;
     };
     let cell = format!("warmup/{}", k.name());
     let mut first: Option<usize> = if v.last().is_some() { Some(0) } else { None };
+    for i in 0..delay {
+        // nothing delivered yet
+        if guarded(|| v.update(T::of(0.25 + i as f64))).is_err() {
+            return;
+        }
+        if first.is_none() && v.last().is_some() {
+            first = Some(0);
+        }
+    }
     for (i, x) in xs.iter().enumerate() {
         if first.is_some() {
             break;
         }
-        if guarded(|| v.update(T::of(*x))).is_err() {
+        // (over a Script the raw input is not what is delivered)
+        let raw = if delay == 0 { *x } else { 1000.5 + i as f64 };
+        if guarded(|| v.update(T::of(raw))).is_err() {
             return;
         }
         if v.last().is_some() {
@@ -336,7 +353,9 @@ fn dispatch<T: Scalar>(cfg: &Cfg, sect: Sect, j: u64, rng: &mut Rng, out: &mut T
             let class = *rng.pick(&[Class::Const, Class::Zero, Class::Walk, Class::SmallInt, Class::Uniform]);
             let len = if rng.chance(1, 4) { rng.usize(0, n) } else { 3 * n + 8 };
             let xs = stream(class, n, len, catalogue::needs_positive(&k), rng);
-            warmup_check::<T>(k, &xs, out);
+            // half of the checks put the view over an inner view that starts delivering late
+            let delay = if rng.coin() { rng.usize(1, 2 * n + 3) } else { 0 };
+            warmup_check::<T>(k, &xs, delay, out);
         }
         Sect::Nothing => {
             let n = rng.usize(1, 9);
